@@ -1,0 +1,311 @@
+//go:build verif
+
+package dastard
+
+// Verification hooks (build tag "verif" only): accessors and a block-pipeline bench that let an
+// external harness drive ProcessSegments deterministically. No logic of dastard is changed here.
+
+import (
+	"encoding/json"
+	"fmt"
+	"sort"
+	"sync"
+	"time"
+
+	"github.com/spf13/viper"
+)
+
+// VerifRecord is the projection of a DataRecord that the harness compares.
+type VerifRecord struct {
+	Chan           int
+	Frame          int64
+	TimeNs         int64
+	Pre            int
+	Data           []uint16
+	Signed         bool
+	PretrigMean    float64
+	PretrigDelta   float64
+	PulseAverage   float64
+	PulseRMS       float64
+	PeakValue      float64
+	ModelCoefs     []float64
+	ResidualStdDev float64
+	VoltsPerArb    float32
+	SampPeriod     float32
+}
+
+// VerifMsg is a client update message captured while the bench runs.
+type VerifMsg struct {
+	Tag  string
+	JSON string
+}
+
+// VerifBench is a prepared but never started TriangleSource whose blocks are supplied by the harness.
+type VerifBench struct {
+	TS        *TriangleSource
+	recChan   chan []*DataRecord
+	sumChan   chan []*DataRecord
+	msgMu     sync.Mutex
+	msgs      []VerifMsg
+	stopDrain chan struct{}
+}
+
+var verifBenchMu sync.Mutex // the package-level publication channels allow one bench at a time
+
+// VerifNewBench builds a source with nchan channels, restores `restored` as the saved trigger
+// configuration (nil: none), and runs Sample, PrepareChannels and PrepareRun as Start would.
+func VerifNewBench(nchan, npre, nsamp int, sampleRate float64, restored []FullTriggerState) (*VerifBench, error) {
+	verifBenchMu.Lock()
+	b := &VerifBench{}
+	b.recChan = make(chan []*DataRecord, 1<<16)
+	b.sumChan = make(chan []*DataRecord, 1<<16)
+	PubRecordsChan = b.recChan
+	PubSummariesChan = b.sumChan
+	b.stopDrain = make(chan struct{})
+	go func() {
+		for {
+			select {
+			case m := <-clientMessageChan:
+				js, _ := json.Marshal(m.state)
+				b.msgMu.Lock()
+				b.msgs = append(b.msgs, VerifMsg{Tag: m.tag, JSON: string(js)})
+				b.msgMu.Unlock()
+			case <-b.stopDrain:
+				return
+			}
+		}
+	}()
+	if restored != nil {
+		viper.Set("trigger", restored)
+	} else {
+		viper.Set("trigger", []FullTriggerState{})
+	}
+	ts := NewTriangleSource()
+	if err := ts.Configure(&TriangleSourceConfig{Nchan: nchan, SampleRate: sampleRate, Min: 100, Max: 200}); err != nil {
+		b.Close()
+		return nil, err
+	}
+	if err := ts.Sample(); err != nil {
+		b.Close()
+		return nil, err
+	}
+	if err := ts.PrepareChannels(); err != nil {
+		b.Close()
+		return nil, err
+	}
+	if err := ts.PrepareRun(npre, nsamp); err != nil {
+		b.Close()
+		return nil, err
+	}
+	b.TS = ts
+	return b, nil
+}
+
+// Close releases the bench (stops the message drain, frees the publication channels).
+func (b *VerifBench) Close() {
+	close(b.stopDrain)
+	PubRecordsChan = nil
+	PubSummariesChan = nil
+	verifBenchMu.Unlock()
+}
+
+// Source returns the underlying AnySource (exported methods: ChangeTriggerState, ConfigurePulseLengths,
+// ChangeGroupTrigger, StopTriggerCoupling, WriteControl, ConfigureProjectorsBases, ...).
+func (b *VerifBench) Source() *AnySource { return &b.TS.AnySource }
+
+// Messages returns and clears the client updates captured so far.
+func (b *VerifBench) Messages() []VerifMsg {
+	time.Sleep(time.Millisecond)
+	b.msgMu.Lock()
+	defer b.msgMu.Unlock()
+	m := b.msgs
+	b.msgs = nil
+	return m
+}
+
+func verifRecord(r *DataRecord) VerifRecord {
+	d := make([]uint16, len(r.data))
+	for i, v := range r.data {
+		d[i] = uint16(v)
+	}
+	return VerifRecord{Chan: r.channelIndex, Frame: int64(r.trigFrame), TimeNs: r.trigTime.UnixNano(),
+		Pre: r.presamples, Data: d, Signed: r.signed,
+		PretrigMean: r.pretrigMean, PretrigDelta: r.pretrigDelta, PulseAverage: r.pulseAverage,
+		PulseRMS: r.pulseRMS, PeakValue: r.peakValue,
+		ModelCoefs: append([]float64(nil), r.modelCoefs...), ResidualStdDev: r.residualStdDev,
+		VoltsPerArb: r.voltsPerArb, SampPeriod: r.sampPeriod}
+}
+
+// VerifBlockResult is everything observable about one call of ProcessSegments.
+type VerifBlockResult struct {
+	Err       string          // error returned by ProcessSegments ("" if nil)
+	Primaries [][]int64       // per channel: the primary trigger frames of this cycle (lastTrigList)
+	Records   [][]VerifRecord // per channel: records in publication order (primaries, then secondaries)
+}
+
+// Block runs one ProcessSegments cycle. chans[c] are the samples of channel c (all the same length),
+// signed[c] tells how channel c's samples are interpreted. A panic inside ProcessSegments' worker
+// goroutines terminates the process (as it would terminate dastard); the harness isolates that.
+func (b *VerifBench) Block(chans [][]uint16, signed []bool, firstFrame, firstTimeNs, periodNs int64,
+	extTrig []int64, dropped int) VerifBlockResult {
+	ds := b.Source()
+	block := new(dataBlock)
+	block.segments = make([]DataSegment, len(chans))
+	for c := range chans {
+		raw := make([]RawType, len(chans[c]))
+		for i, v := range chans[c] {
+			raw[i] = RawType(v)
+		}
+		block.segments[c] = DataSegment{rawData: raw, framesPerSample: 1,
+			firstFrameIndex: FrameIndex(firstFrame), firstTime: time.Unix(0, firstTimeNs),
+			framePeriod: time.Duration(periodNs), signed: signed[c], droppedFrames: dropped,
+			voltsPerArb: ds.voltsPerArb[c]}
+	}
+	if len(chans) > 0 {
+		block.nSamp = len(chans[0])
+	}
+	block.externalTriggerRowcounts = extTrig
+	var res VerifBlockResult
+	if err := ds.ProcessSegments(block); err != nil {
+		res.Err = err.Error()
+	}
+	res.Primaries = make([][]int64, len(ds.processors))
+	res.Records = make([][]VerifRecord, len(ds.processors))
+	for c, dsp := range ds.processors {
+		for _, f := range dsp.lastTrigList.frames {
+			res.Primaries[c] = append(res.Primaries[c], int64(f))
+		}
+	}
+	for {
+		select {
+		case recs := <-b.recChan:
+			for _, r := range recs {
+				res.Records[r.channelIndex] = append(res.Records[r.channelIndex], verifRecord(r))
+			}
+			continue
+		default:
+		}
+		break
+	}
+	for {
+		select {
+		case <-b.sumChan:
+			continue
+		default:
+		}
+		break
+	}
+	return res
+}
+
+// ---- per-channel accessors ----
+
+// VerifDsp returns channel c's processor.
+func (b *VerifBench) VerifDsp(c int) *DataStreamProcessor { return b.Source().processors[c] }
+
+// VerifNchan is the number of processors.
+func (b *VerifBench) VerifNchan() int { return len(b.Source().processors) }
+
+// VerifStreamInfo reports the retained stream of a processor: length, first frame, first time (ns), period (ns).
+func (dsp *DataStreamProcessor) VerifStreamInfo() (n int, firstFrame int64, firstTimeNs int64, periodNs int64) {
+	return len(dsp.stream.rawData), int64(dsp.stream.firstFrameIndex), dsp.stream.firstTime.UnixNano(), int64(dsp.stream.framePeriod)
+}
+
+// VerifStreamData copies the retained samples.
+func (dsp *DataStreamProcessor) VerifStreamData() []uint16 {
+	d := make([]uint16, len(dsp.stream.rawData))
+	for i, v := range dsp.stream.rawData {
+		d[i] = uint16(v)
+	}
+	return d
+}
+
+// VerifLastTrigger exposes LastTrigger and the edge-multi state.
+func (dsp *DataStreamProcessor) VerifLastTrigger() int64 { return int64(dsp.LastTrigger) }
+
+// VerifNToKeep exposes NToKeepOnTrim().
+func (dsp *DataStreamProcessor) VerifNToKeep() int { return dsp.NToKeepOnTrim() }
+
+// VerifDecimating tells whether decimation is on (the models assume it is not).
+func (dsp *DataStreamProcessor) VerifDecimating() bool { return dsp.Decimate }
+
+// VerifAnalyze runs AnalyzeData on one record built from raw samples.
+func (dsp *DataStreamProcessor) VerifAnalyze(data []uint16, presamples int, signed bool) VerifRecord {
+	raw := make([]RawType, len(data))
+	for i, v := range data {
+		raw[i] = RawType(v)
+	}
+	rec := &DataRecord{data: raw, presamples: presamples, signed: signed, channelIndex: dsp.channelIndex}
+	dsp.AnalyzeData([]*DataRecord{rec})
+	return verifRecord(rec)
+}
+
+// VerifPublisher returns the processor's DataPublisher.
+func (dsp *DataStreamProcessor) VerifPublisher() *DataPublisher { return &dsp.DataPublisher }
+
+// VerifPublish publishes records built from the given projections through the real PublishData.
+func (dsp *DataStreamProcessor) VerifPublish(recs []VerifRecord) error {
+	rs := make([]*DataRecord, len(recs))
+	for i, v := range recs {
+		rs[i] = verifDataRecord(v)
+	}
+	return dsp.DataPublisher.PublishData(rs)
+}
+
+func verifDataRecord(v VerifRecord) *DataRecord {
+	raw := make([]RawType, len(v.Data))
+	for i, x := range v.Data {
+		raw[i] = RawType(x)
+	}
+	return &DataRecord{data: raw, trigFrame: FrameIndex(v.Frame), trigTime: time.Unix(0, v.TimeNs),
+		signed: v.Signed, channelIndex: v.Chan, presamples: v.Pre, voltsPerArb: v.VoltsPerArb,
+		sampPeriod: v.SampPeriod, pretrigMean: v.PretrigMean, pretrigDelta: v.PretrigDelta,
+		pulseAverage: v.PulseAverage, pulseRMS: v.PulseRMS, peakValue: v.PeakValue,
+		modelCoefs: v.ModelCoefs, residualStdDev: v.ResidualStdDev}
+}
+
+// VerifMessageRecord / VerifMessageSummary expose the ZMQ message encoders.
+func VerifMessageRecord(v VerifRecord) [][]byte  { return messageRecords(verifDataRecord(v)) }
+func VerifMessageSummary(v VerifRecord) [][]byte { return messageSummaries(verifDataRecord(v)) }
+
+// VerifRcCode exposes the row/column code packing.
+func VerifRcCode(row, col, rows, cols int) (code uint64, r, c, nr, nc int) {
+	k := rcCode(row, col, rows, cols)
+	return uint64(k), k.row(), k.col(), k.rows(), k.cols()
+}
+
+// VerifSourceTables reports the channel identity tables of any source after PrepareChannels.
+type VerifSourceTables struct {
+	Nchan             int
+	Names             []string
+	Numbers           []int
+	RowColCodes       []uint64
+	SubframeOffsets   []int
+	SubframeDivisions int
+	Groups            []GroupIndex
+	ChannelsPerPixel  int
+}
+
+// VerifTables extracts the tables from an AnySource.
+func (ds *AnySource) VerifTables() VerifSourceTables {
+	t := VerifSourceTables{Nchan: ds.nchan, Names: append([]string(nil), ds.chanNames...),
+		Numbers: append([]int(nil), ds.chanNumbers...), SubframeOffsets: append([]int(nil), ds.subframeOffsets...),
+		SubframeDivisions: ds.subframeDivisions, Groups: append([]GroupIndex(nil), ds.groupKeysSorted...),
+		ChannelsPerPixel: ds.channelsPerPixel}
+	for _, c := range ds.rowColCodes {
+		t.RowColCodes = append(t.RowColCodes, uint64(c))
+	}
+	sort.Sort(ByGroup(t.Groups))
+	return t
+}
+
+// VerifSetWritingBasePath sets the base path used by WriteControl START.
+func (ds *AnySource) VerifSetWritingBasePath(p string) { ds.writingState.BasePath = p }
+
+// VerifProcessors returns the processors of a prepared source.
+func (ds *AnySource) VerifProcessors() []*DataStreamProcessor { return ds.processors }
+
+// VerifString is a debugging aid.
+func (r VerifRecord) VerifString() string {
+	return fmt.Sprintf("ch%d f%d t%d pre%d n%d", r.Chan, r.Frame, r.TimeNs, r.Pre, len(r.Data))
+}
